@@ -270,8 +270,9 @@ def rule_K1(ctx) -> None:
     else:
         ctx.proved("K1", "Duration:s-suffix", mod.loc(de))
     fdi = mod.func("Message._from_dict_init")
-    strips = [ast.unparse(n) for n in ast.walk(fdi) if isinstance(n, ast.Subscript) and isinstance(n.slice, ast.Slice) and n.slice.upper is not None
-              and n.slice.lower is None]
+    scopes = [fdi] + [f for fs in mod.methods("_Duration").values() for f in fs if "json" in f.name and f.name != "delta_to_json"]
+    strips = [ast.unparse(n) for fn_ in scopes for n in ast.walk(fn_) if isinstance(n, ast.Subscript) and isinstance(n.slice, ast.Slice) and n.slice.upper is not None
+              and n.slice.lower is None and isinstance(n.slice.upper, ast.UnaryOp) and isinstance(n.slice.upper.op, ast.USub)]
     if strips and all(s.endswith("[:-1]") for s in strips):
         ctx.proved("K1", "Duration:parser-strips-one-char", mod.loc(fdi))
     elif not strips:
